@@ -114,11 +114,14 @@ class WatchScenario(Scenario):
                     env.stream_fault(s, action)
                     env.log('streamfault', stream=s.label, fault=action)
             elif action == 'pause':
-                env.loop.create_task(env.memo['toggle'].turn_to(True), name='pause')
+                async def turn_on() -> None:
+                    await env.memo['toggle'].turn_to(True)
+                    env.log('pause-on', nreq=w._rid)        # from here on (by request number, not by time) nothing may be requested
+                env.loop.create_task(turn_on(), name='pause')
                 env.log('pause')
             elif action == 'resume':
+                env.log('resume', nreq=w._rid)
                 env.loop.create_task(env.memo['toggle'].turn_to(False), name='resume')
-                env.log('resume')
             else:
                 raise ValueError(action)
         return fn
@@ -191,6 +194,22 @@ class WatchScenario(Scenario):
                 start = None
         if start is not None:
             pause_windows.append((start, float('inf')))
+        # ... and by request number: whatever is requested after the pause toggle was on and before the resume was asked for
+        on = None
+        rid_windows = []
+        for t, k, p in env.obs:
+            if k == 'pause-on':
+                on = (t, p['nreq'])
+            if k == 'resume' and on is not None:
+                rid_windows.append((on[0], on[1], p.get('nreq', 10 ** 9)))
+                on = None
+        if on is not None:
+            rid_windows.append((on[0], on[1], 10 ** 9))
+        for r in env.world.requests:
+            for t_on, lo, hi in rid_windows:
+                if lo < r.rid <= hi and not (any(a < r.t_issued < b for a, b in pause_windows)):
+                    out.append(self.viol(env, 'request-while-paused', f"t={r.t_issued}: {r.method} {r.path}{'?watch' if r.params.get('watch') else ''} was requested after the pause "
+                                                                      f"had taken effect (t={t_on}, same instant)", clause='pause', how='same-instant'))
         for r in env.world.requests:
             for a, b in pause_windows:
                 if a < r.t_issued < b:
@@ -275,6 +294,10 @@ def watch_scenarios(tier: str) -> tuple[list[WatchScenario], list[WatchScenario]
     # explorer-placed faults
     searched.append(WatchScenario(user=changes[:4], pre=['z'], horizon=30.0, dev_faults=True, early_user=True, time_dev=True, grid=2.0))
     searched.append(WatchScenario(user=changes[:4], pre=['z'], horizon=30.0, dev_faults=True, early_user=True, time_dev=True, grid=2.0, rv0=97))
+    # a pause that begins while a LIST is in flight: at startup, after a 410 Gone, after a failed list, right after a resume
+    searched.append(WatchScenario(user=[(0.0, 'pause'), (3.0, 'resume'), (4.0, 'create', 'a'), (5.0, 'modify', 'a')], pre=['z'], horizon=25.0))
+    searched.append(WatchScenario(user=[(2.0, 'create', 'a'), (3.0, 'gone410'), (3.0, 'pause'), (6.0, 'resume'), (7.0, 'modify', 'a')], pre=['z'], horizon=25.0))
+    searched.append(WatchScenario(user=[(2.0, 'create', 'a'), (3.0, 'pause'), (5.0, 'resume'), (5.0, 'pause'), (8.0, 'resume'), (9.0, 'modify', 'a')], pre=['z'], horizon=25.0))
     searched.append(WatchScenario(user=[(2.0, 'create', 'a'), (3.0, 'pause'), (4.0, 'modify', 'a'), (5.0, 'delete', 'a'), (6.0, 'resume'), (8.0, 'create', 'b')],
                                   pre=['z'], horizon=30.0, dev_faults=True, early_user=True))
     return scripted, searched
